@@ -173,7 +173,37 @@ pub fn spec_test(v: &DataValue, op: &DataOperator) -> Option<bool> {
             }
             any
         }
-        // cross-type comparisons (e.g. a string operand against a number, an integer operand against a float) are not documented
+        // a string operand against a number or datetime (what an unquoted STAMQL operand amounts to): a value equals its own
+        // canonical text form and never a text that is no number / datetime at all; other spellings ("5.0" against Int(5),
+        // "+5", exponents) are not pinned down
+        (V::Int(n), O::Equals(x)) => {
+            if x.as_ref() == n.to_string() {
+                true
+            } else if x.parse::<f64>().is_err() {
+                false
+            } else {
+                return None;
+            }
+        }
+        (V::Float(f), O::Equals(x)) => {
+            if x.as_ref() == format!("{}", f) || x.as_ref() == format!("{:?}", f) {
+                true
+            } else if x.parse::<f64>().is_err() {
+                false
+            } else {
+                return None;
+            }
+        }
+        (V::Datetime(d), O::Equals(x)) => {
+            if x.as_ref() == d.to_rfc3339() {
+                true
+            } else if DateTime::parse_from_rfc3339(x.as_ref()).is_err() {
+                false
+            } else {
+                return None;
+            }
+        }
+        // other cross-type comparisons (an integer operand against a float, a string operand against a boolean) are not documented
         _ => return None,
     })
 }
